@@ -689,7 +689,10 @@ pub fn c03_threads(cfg: C03Cfg, bound: u32) -> ThHarness {
                     // The last poll of the task.
                     let last_end = s.events.iter().rev().find(|(th, e, _)| *th == t + 1 && e.starts_with("task-poll-end")).cloned().unwrap();
                     let last_begin = s.events.iter().rev().find(|(th, e, _)| *th == t + 1 && e == "task-poll-begin").cloned().unwrap();
-                    let blocked_for_slot = last_end.1.ends_with("nosubmit") && !simk::with(|k| k.reqs.iter().any(|r| r.opcode != OP_WRITE && r.opcode != OP_ASYNC_CANCEL && r.opcode != OP_CLOSE));
+                    // Did this task ever get its submission in? (Other tasks' requests say nothing about it.)
+                    let submitted_ever = s.events.iter().any(|(th, e, _)| *th == t + 1 && e.starts_with("task-poll-end") && e.ends_with(":submitted"));
+                    let my_ud = find_user_data(cfg.kind, t);
+                    let blocked_for_slot = last_end.1.ends_with("nosubmit") && !submitted_ever && my_ud.is_none();
                     // Complete Ring::poll calls that began after the task's last
                     // poll began (completion case: the operation's lock orders
                     // them) or returned (queue-full case: "a subsequent call").
@@ -719,7 +722,10 @@ pub fn c03_threads(cfg: C03Cfg, bound: u32) -> ThHarness {
                         // Completion case: was the readying completion consumed by a complete Ring::poll after the last poll began?
                         let consumed = simk::with(|k| {
                             let head = k.rings[0].cq_head();
-                            k.written.iter().filter(|w| w.serial.is_some_and(|s| k.req(s).opcode != OP_WRITE)).any(|w| head.wrapping_sub(w.pos).wrapping_sub(1) < (1 << 31))
+                            k.written
+                                .iter()
+                                .filter(|w| Some(w.cqe.user_data) == my_ud && w.serial.is_some_and(|s| k.req(s).opcode != OP_WRITE))
+                                .any(|w| head.wrapping_sub(w.pos).wrapping_sub(1) < (1 << 31))
                         });
                         if consumed && !complete_polls_after.is_empty() {
                             v.push(Violation::new("C03", "lost-wakeup/completion", &format!("{msg}: its completion was consumed by a Ring::poll call that ran after the poll that returned Pending, but the waker given to that poll was never invoked")));
